@@ -34,6 +34,7 @@ def run(ctx, sess):
     ctx.rule('C12.8', 'the map is loaded from every stored pair: the sample id at which a loader of the id<->time map (a caller of the UTC iteration whose callback adds to a map) starts the iteration is a constant below every id that can be stored (<= -2^61) - a start that depends on the signal (one hour of samples before the first one) leaves earlier pairs out of the map although jls_rd_utc returns them, and the conversion then extrapolates instead of reproducing them')
     ctx.rule('C12.9', 'the pairs that are delivered are the pairs that were converted: where jls_core_utc hands a range of a summary chunk (pointer, count) to the callback after subtracting the sample id offset in place, the subtraction covers exactly that range - the loop starts at the index the pointer is advanced by and ends at the entry count the count is derived from, or a helper receives the very pointer and count that are delivered')
     ctx.rule('C12.10', 'conversion arithmetic keeps sign and range (the two structural parts; accuracy to one tick is value arithmetic and not decided): a product of two 64-bit differences is never formed in integer arithmetic, and extrapolation works on both sides of the map: in the conversion functions of tmap.c a difference that involves the queried sample id or time (negative for a query before the first pair) is never converted to an unsigned type - neither by a cast nor by a macro that takes its argument as uint64_t')
+    ctx.rule('C12.11', 'the UTC iteration converts the entries of the chunk it just read: jls_core_rd_chunk reports success only behind a successful raw read of that call, so entries that an earlier iteration converted in place are never offered again as if they came from the file (shared with C04.13)')
     ctx.rule('C12.6', 'a callback that asks to stop ends the UTC iteration, and every delivery hands over the buffer just read')
 
     w = P.fn('jls_wr_utc')
@@ -169,6 +170,7 @@ def run(ctx, sess):
 
     map_append_rule(ctx, P, 'C12.7')
     map_load_start_rule(ctx, P, 'C12.8')
+    relay(ctx, sess, _c04.run, {'C04.13': 'C12.11'}, minimum=1)
     delivered_range_rule(ctx, P, r, 'C12.9')
     signed_delta_rule(ctx, P, 'C12.10')
 
